@@ -16,7 +16,7 @@ META = {
              "d 2-4, cycles 0-8, full and simplified; multi-round experiment circuits); distinct by structural hash; non-trivial = nesting depth >= 2"),
     "assumptions": ["for generated programs only the multiset clause is asserted (the statement promises order/schedule only for library circuits)"],
     "floors": {
-        "quick": {"flatten_calls": 2500, "second_flatten_checks": 2500, "library_flatten_checks": 50, "leaves_compared": 30000},
+        "quick": {"flatten_calls": 2500, "second_flatten_checks": 2500, "library_flatten_checks": 50, "leaves_compared": 30000, "deep_flatten_depth": 1300},
         "thorough": {"flatten_calls": 30000, "second_flatten_checks": 30000, "library_flatten_checks": 300},
     },
 }
@@ -28,6 +28,10 @@ def plan(tier: str, seed: int) -> List[Dict[str, Any]]:
     nlib = 60 if tier == "quick" else 400
     shards.append({"kind": "library", "n": nlib // 2, "seed": common.seed_base(seed, 111), "hashseed": 0})
     shards.append({"kind": "library", "n": nlib // 2, "seed": common.seed_base(seed, 112), "hashseed": 0})
+    # flattening merges all nested relation chains into ONE graph: programs whose merged depth is far beyond any single block
+    shards.append({"kind": "deep", "hashseed": 0, "seed": common.seed_base(seed, 113),
+                   "shapes": [[30, 20], [12, 60]] if tier == "quick" else [[30, 20], [12, 60], [60, 40], [96, 50]],
+                   "library_cycles": [35] if tier == "quick" else [35, 70]})
     return shards
 
 
@@ -142,9 +146,46 @@ def check_library(inp: Dict[str, Any], acc: Acc):
     memo_shadow.drain()
 
 
+def check_deep(shape, acc: Acc):
+    """blocks x steps sequential operations on one qubit, nested as sibling sub-circuits: listing-only checks (no time reads)."""
+    blocks, steps = shape
+    kinds = ["Rx180", "Ry90", "Identity", "Reset", "Wait", "VirtualPhase"]
+    circ = {"reps": 1, "steps": [{"sub": {"reps": 1, "steps": [{"k": kinds[(b + i) % len(kinds)], "q": [0]} for i in range(steps)]}} for b in range(blocks)]}
+    prog = {"class": "deep", "circuit": circ, "settings": {}}
+    case = {"program": {"class": "deep", "blocks": blocks, "steps": steps}}
+    acc.case(f"deep-{blocks}x{steps}", True, sample=case["program"])
+    built = bp.build(prog, bp.Ctx({}))
+    circuit = built.top.circuit
+    before = sorted(snap.op_sig(o) for o in circuit.operations)
+    flat = circuit.flatten()
+    acc.count("flatten_calls")
+    acc.count("deep_flatten_depth", blocks * steps)
+    ops = flat.operations
+    after = sorted(snap.op_sig(o) for o in ops)
+    acc.count("leaves_compared", len(before))
+    if before != after:
+        acc.finding("flatten/content", f"flattening a {blocks}x{steps} nested chain changed the multiset of leaf operations", case,
+                    {"before": len(before), "after": len(after)})
+    if flat.composite_operations:
+        acc.finding("flatten/sub-circuit-left", "a sub-circuit remains after flatten() (deep)", case, None)
+    ids = [id(o) for o in ops]
+    if [id(o) for o in flat.flatten().operations] != ids:
+        acc.finding("flatten/not-idempotent", "flattening a second time changes the listing (deep)", case, None)
+    acc.count("second_flatten_checks")
+
+
 def run_shard(shard: Dict[str, Any]) -> Acc:
     acc = Acc()
     rng = random.Random(shard["seed"])
+    if shard["kind"] == "deep":
+        for shape in shard["shapes"]:
+            common.guarded(acc, check_deep, shape, acc)
+        for cycles in shard["library_cycles"]:
+            inp = {"constructor": "full", "description": "initial_state", "refocus": True, "distance": 3, "data_state": [0, 1, 0], "ancilla_state": None,
+                   "cycles": cycles, "glob": {}}
+            acc.case(bp.phash(inp), True, sample=inp)
+            common.guarded(acc, check_library, inp, acc)
+        return acc
     if shard["kind"] == "library":
         for i in range(shard["n"]):
             inp = libgen.gen_repcode_input(rng, max_distance=4, max_cycles=8)
